@@ -476,6 +476,11 @@ impl Instance {
     fn blame_op(&self, op: &Op) -> Vec<&'static str> {
         let mut t: Vec<&'static str> = vec!["C01"];
         t.extend(op_tags(op));
+        if self.filter.is_some() && matches!(op, Op::Leveled { .. } | Op::Major { .. } | Op::PullDown { .. }) {
+            // a compaction that runs the user's filter: a failure in it is a C17 matter too
+            // (e.g. the crate's unreachable!() when the filter is handed a tombstone)
+            t.push("C17");
+        }
         self.blame_common(t)
     }
 
